@@ -237,10 +237,18 @@ impl Move {
             }
 
             if let Some(piece) = game.get_position(start) {
+                // En passant captures always happen between these two rows
+                let (en_passant_start_row, en_passant_end_row) = match game.current_player {
+                    Player::White => (4, 5),
+                    Player::Black => (3, 2),
+                };
+
                 // This move is either en passant or normal
                 return if piece.piece_type == PieceType::Pawn
                     && game.get_position(end).is_none()
                     && i8::abs(start.col() - end.col()) == 1
+                    && start.row() == en_passant_start_row
+                    && end.row() == en_passant_end_row
                 {
                     Some(Self::EnPassant {
                         owner: game.current_player,
